@@ -583,7 +583,7 @@ _quick_for(r"^C01/gen/", ["C01", "C06"])
 _quick_for(r"^C01/gen/dispatch$", ["C01", "C06", "C07", "C09"])
 _quick_for(r"^C06/semilegal/", ["C06"])
 _quick_for(r"^C06/well-formed$", ["C06", "C10"])
-_quick_for(r"^C02/make-move/", ["C02", "C04"])
+_quick_for(r"^C02/make-move/", ["C02"])
 _quick_for(r"^C03/make/", ["C03", "C04"])
 _quick_for(r"^C05/hash-delta/", ["C05"])
 _quick_for(r"^C05/scratch/", ["C05"])
@@ -626,6 +626,7 @@ _tag_quick("C18", [r"^C07/insufficient$", r"^C01/gen/(pawn-enpassant|pawn-simple
                    r"^C16/attackers/", r"^C15/castling/masks$", r"^C15/pawns/advances$", r"^C20/geometry/ranks-deltas$"])
 
 # functions a property's statement depends on directly although another property owns their contract
+_tag_quick("C04", [r"^C02/make-move/(Enpassant/w|CastlingKingside/b|PromoteQueen/b|Null/w)$"])   # rollback inside the safe path (all kinds: C02's check)
 _tag_quick("C05", [r"^C03/make/"])                    # occupancy sets after make / unmake
 _tag_quick("C13", [r"^C03/make/"])                    # push / pop are make / unmake
 _tag_quick("C14", [r"^C05/hash-delta/"])              # repetition counting compares stored hashes
